@@ -20,7 +20,20 @@ TEXT = {
 }
 
 
+def mc_ref(tier, v):
+    """exhaustive small-scope run of the reference machine itself (MCRef.tla): ReplayDeterminism, SnapsAreFolds, ..."""
+    cfg = "MC_Ref_quick_h3.cfg" if tier == "quick" else "MC_Ref_thorough.cfg"
+    r = common.tlc("MCRef.tla", cfg, "mcref", workers=8, timeout=3000, xmx="12g")
+    if r["violated"]:
+        v.report("model:MCRef:" + r["violated"], "MCRef.tla violates %s under %s" % (r["violated"], cfg), {"tlc": common.tlc_tail(r, 80)})
+    elif not r["ok"]:
+        raise common.ToolError("TLC failed on MCRef:\n" + common.tlc_tail(r))
+    return {"config": cfg, "distinct": r["distinct"], "generated": r["generated"], "depth": r["depth"]}
+
+
 def run(pid, tier, seed, extra_model=None):
+    if extra_model is None and pid in ("C01", "C03", "C08"):
+        extra_model = mc_ref
     t0 = time.time()
     common.build_harness()
     focus, qn, tn, maxlen, nontriv, what = PROPS[pid]
